@@ -23,6 +23,7 @@ import (
 func init() {
 	ops["jsonenc"] = jsonEnc
 	ops["jsondec"] = jsonDec
+	ops["jsonshape"] = jsonShape
 }
 
 // Val is the structural value description shared by the harness, this driver and the Lean model.
@@ -484,4 +485,33 @@ func jsonDec(p *Pkg, c *Case) string {
 		return "dec=ok dump=" + dump + " reenc=ERR:" + hx(err.Error())
 	}
 	return "dec=ok dump=" + dump + " reenc=" + hx(canonJSON(bs))
+}
+
+// jsonShape: which fields of a generated object type can be left unset (are Maybe-wrapped), in
+// struct order, AdditionalProperties excluded: "O" optional, "R" required.
+func jsonShape(p *Pkg, c *Case) string {
+	var a jsonArgs
+	if err := json.Unmarshal(c.Args, &a); err != nil {
+		return "bad-args " + err.Error()
+	}
+	t, ok := p.Types[a.Type]
+	if !ok {
+		return "no-such-type"
+	}
+	if t.Kind() != reflect.Struct {
+		return "not-a-struct"
+	}
+	var b strings.Builder
+	for i := 0; i < t.NumField(); i++ {
+		f := t.Field(i)
+		if f.Name == "AdditionalProperties" || f.Anonymous {
+			continue
+		}
+		if isWrapper(f.Type, "Maybe") {
+			b.WriteByte('O')
+		} else {
+			b.WriteByte('R')
+		}
+	}
+	return "shape=" + b.String()
 }
